@@ -289,6 +289,9 @@ func conformMain(rc *RunCtx) {
 	}
 	if !stable {
 		simrt.Probe("peer-set-never-stable")
+		if w.LoopStuck(t) {
+			rc.Fail("C05", "event-loop-stuck", "", "the torrent's event loop does not answer a status query any more (%d events queued): handling some event never terminated", t.SimEventLen())
+		}
 		return
 	}
 	reg := t.SimPeers()
@@ -569,7 +572,7 @@ func uploadMain(rc *RunCtx) {
 		// memory: what the system allocates while serving requests is
 		// bounded by what it serves, not by the numbers in the requests
 		h := heapAllocBytes()
-		bound := uint64(64<<20) + 256*uint64(uploaded()) // the harness itself copies every uploaded byte several times
+		bound := uint64(64<<20) + 256*uint64(uploaded()) + 1024*rc.S.Step() // the harness itself copies every uploaded byte several times, and records every step of a long run
 		if h-heap0 > bound {
 			rc.Fail("C16", "alloc-bound", "", "the process allocated %d MiB while %d bytes were uploaded (bound %d MiB): allocation follows a length field of a request", (h-heap0)>>20, uploaded(), bound>>20)
 		}
@@ -618,6 +621,8 @@ func uploadMain(rc *RunCtx) {
 		if n := peer.NumUnchoking(); n != 0 {
 			rc.Fail("C16", "num-unchoking", "after-all-left", "peer.NumUnchoking()=%d with nobody connected", n)
 		}
+	} else if w.LoopStuck(t) {
+		rc.Fail("C05", "event-loop-stuck", "", "after every leecher has left the torrent's event loop does not answer a status query any more (%d events queued): handling some event never terminated", t.SimEventLen())
 	}
 	// every valid request for a held piece, made while unchoked and never
 	// cancelled, on a connection that stayed up and kept reading, is a
